@@ -238,12 +238,18 @@ def fastMatch (emptyOK : Bool) (sat : Nat → Bytes → Bool) (st : Option Bytes
         else (true, ⟨[(name, rest.drop (k + 1))], over⟩)
   | _ => (false, ⟨[], over⟩)
 
+/-- `expectedSlashes`: the segment count, one less when the path has no leading slash -/
+def expectedSlashes (n : Nat) (path : Bytes) : Nat :=
+  match path with
+  | '/' :: _ => n
+  | _ => n - 1
+
 /-- the general path of `matchAndExtract`: length and slash count, parse into at most 16 segments,
 static segments by position, then the two parameter loops -/
 def generalMatch (sat : Nat → Bytes → Bool) (r : CRoute) (path : Bytes) (over : SMap) : Bool × Extract :=
   let n := r.segCount
   if path.length < n + (n - 1) then (false, ⟨[], over⟩)
-  else if countSlashes path ≠ (match path with | '/' :: _ => n | _ => n - 1) then (false, ⟨[], over⟩)
+  else if countSlashes path ≠ expectedSlashes n path then (false, ⟨[], over⟩)
   else if (parseSegs16 path).length ≠ n then (false, ⟨[], over⟩)
   else if !(r.statics.all fun (x : Nat × Bytes) => (parseSegs16 path)[x.1]? == some x.2) then (false, ⟨[], over⟩)
   else if !paramsValid sat (parseSegs16 path) r.params then (false, ⟨[], over⟩)
